@@ -83,6 +83,9 @@ fn extend(s: &G) -> Vec<G> {
     un(&|s| format!("impl Tr<{s}>"), 0);
     un(&|s| format!("Foo<Item: Tr<{s}>>"), 0);
     un(&|s| format!("Foo<3, {s}>"), 0);
+    // associated-const binding next to the type argument (every GenericArgument kind is walked)
+    un(&|s| format!("Foo<N = 3, Item = {s}>"), 0);
+    un(&|s| format!("Box<dyn Shape<{s}, SIDES = {{ X }}>>"), 0);
     un(&|s| format!("for<'z> fn(&'z {s})"), 0);
     un(&|s| format!("fn({s})"), 0);
     un(&|s| format!("fn() -> {s}"), 0);
@@ -280,6 +283,7 @@ fn collections(tys: &[G], t: &mut Tally) {
             let opts: darling_core::usage::Options = purpose.into();
             let mask_of = |s: &IdentSet| -> u8 { ["T", "U", "X"].iter().enumerate().fold(0, |a, (i, n)| a | if s.contains(&ident(n)) { 1 << i } else { 0 }) };
             let lmask_of = |s: &LifetimeSet| -> u8 { ["'a", "'b"].iter().enumerate().fold(0, |a, (i, n)| a | if s.contains(&syn::Lifetime::new(n, proc_macro2::Span::call_site())) { 1 << i } else { 0 }) };
+            let computed = catch(std::panic::AssertUnwindSafe(|| {
             let mut got: Vec<(&str, u8, u8)> = vec![];
             got.push(("Vec<Type>", mask_of(&parsed.uses_type_params_cloned(&opts, &set)), lmask_of(&parsed.uses_lifetimes_cloned(&opts, &lset))));
             got.push(("iterator", mask_of(&parsed.iter().collect_type_params_cloned(&opts, &set)), lmask_of(&parsed.iter().collect_lifetimes_cloned(&opts, &lset))));
@@ -292,6 +296,20 @@ fn collections(tys: &[G], t: &mut Tally) {
                 let af: darling_core::ast::Fields<syn::Field> = darling_core::ast::Fields::try_from(&s.fields).unwrap();
                 got.push(("ast::Fields", mask_of(&af.uses_type_params_cloned(&opts, &set)), lmask_of(&af.uses_lifetimes_cloned(&opts, &lset))));
             }
+            got
+            }));
+            let got = match computed {
+                Ok(g) => g,
+                Err(p) => {
+                    t.violate(Violation {
+                        key: format!("C19 collection members=[{} | {} | {}] purpose={sel} :: panicked: {p}", members[0].text, members[1].text, members[2].text),
+                        what: format!("usage analysis of a collection of [{}, {}, {}] panicked: {p}", members[0].text, members[1].text, members[2].text),
+                        case: json!({}),
+                        detail: json!({}),
+                    });
+                    continue;
+                }
+            };
             for (what, m, lm) in got {
                 t.evaluations += 1;
                 t.hit("collections_checked");
